@@ -87,8 +87,41 @@ PROPS["C01"] = {
     "assumptions": ["static 1:1 NAT (full cone)", "acceptance waits and liveness timeouts set to 0 so that nothing depends on the wall clock"],
 }
 
-PROPS["C03"] = dict(PROPS["C01"])
-PROPS["C03"]["parts"] = [part("TestVerifC03", q=8, t=16, tq=900)]
+PROPS["C03"] = {
+    "parts": [part("TestVerifC03", q=8, t=16, tq=900)],
+    "level": "exploration",
+    "engine": "E1 simnet",
+    "technique": "shadow wire-log monitor: after every simulation step a change of the selected pair must be backed by datagrams the harness itself decoded and integrity-checked (own answered check + nomination); every emitted request is classified by role",
+    "level_text": "Half of the histories are agent-vs-agent chaos (as C01), half are one real agent against a scripted, correctly authenticated peer that nominates early, repeatedly, on any pair, "
+                  "with/without nomination values, withholds, delays or reorders its responses; configurations full, lite and lite+priority-check. The oracle is the wire log, not agent state.",
+    "level_note": "Schedules and peer scripts are sampled. 'Priority' in the downward-switch clause is the RFC pair formula recomputed by the harness from the candidates' priorities. "
+                  "No application binding-request handler is installed (excluded by the property).",
+    "rule": "case = one session history; distinct_nontrivial counts distinct topology/schedule classes (agent-vs-agent) and (mode, values, #sockets, length bucket) classes (scripted peer); "
+            "coverage_sets.c03_selections lists the kinds of selection events observed",
+    "assumptions": ["static 1:1 NAT", "timeouts disabled so nothing depends on the wall clock"],
+}
+PROPS["C06"] = {
+    "parts": [part("TestVerifC06", q=8, t=16, tq=900)],
+    "level": "exploration",
+    "engine": "E1 simnet",
+    "technique": "structural-invariant monitor: after every simulation step the checklist, id index, candidate maps and pending transactions are walked inside a task-loop task and cross-checked with the public views; before/after comparison around every prflx supersession and Restart",
+    "level_text": "Histories over random topologies with duplicate trickle, prflx-then-signalled and signalled-then-prflx orders, remote IP filters (signalled and peer-reflexive sources), "
+                  "coordinated Restart at random steps, Failed via millisecond timeouts, and Restart racing a running gather cycle with seeded pauses at the task-loop hand-off (hook H2).",
+    "level_note": "Invariants are evaluated only at quiescent points under the agent's own serialisation. UDP host candidates only; TCP-active remotes are exercised through the add path only.",
+    "rule": "case = one session history (all monitors after every step); distinct_nontrivial counts distinct (variant, |A|, |B|, #NAT, #cuts, length bucket) classes",
+    "assumptions": ["pair ids are compared within one generation (shadow map reset at Restart)"],
+}
+PROPS["C05"] = {
+    "parts": [part("TestVerifC05", q=8, t=16, tq=900)],
+    "level": "exploration",
+    "engine": "E1 simnet",
+    "technique": "scripted authenticated peer sends same-role Binding requests with chosen tie-breakers; verdict from the wire (487 / silence / success), the role attribute of the agent's next request and a before/after snapshot; system level: same-role starts under random schedules + C01's convergence oracle",
+    "level_text": "All pairs of 8 boundary tie-breaker values (0,1,2,2^63-1,2^63,2^63+1,2^64-2,2^64-1) x both roles exhaustively, random 64-bit pairs incl. equal and adjacent, "
+                  "with and without USE-CANDIDATE on the conflicting request; plus both-controlling / both-controlled agent pairs under drop/dup/reorder schedules.",
+    "level_note": "Unit level is exhaustive only over the boundary grid; random pairs and schedules are sampled.",
+    "rule": "case = one (local, remote, role, use-candidate) unit decision or one same-role session; distinct_nontrivial counts boundary pairs, (order, equal, role) classes of random pairs and system-run classes",
+    "assumptions": ["tie-breaker set in-package so that the pair is known to the oracle"],
+}
 
 ENGINES = [
     {"name": "E7 refmodel", "path": "harness/ice/vfc16.go, vfc17.go, vfc19.go", "serves_properties": ["C16", "C17", "C19"],
